@@ -752,9 +752,8 @@ def run_history(case, ctx):
                 if n < 2:
                     continue
                 sr = d["selfref"]
-                r0 = dict(model.rows[0])
+                r0 = dict(row)  # a fresh row (rows already in the table may hold ids < -1 put there by column ops)
                 r0[sr] = [n - 1] if isinstance(r0[sr], list) else n - 1
-                r0 = jsonify_md(model, r0)
                 t[0] = row_like(model, r0, md_json())
                 model.rows[0] = r0
                 check_table(ctx, model, t, model.rows, model.schema, what + ".prepare", deep=False)
